@@ -13,7 +13,9 @@ span_is_yield_hull / replay_span_is_yield_hull (with recovery, any table).
 
 Tie: parse_actions with one recording closure per production against the mirrors on
 the implementation's own tables, lexemes with byte gaps; with recovery the mirror
-replays the repair sequence the implementation reports as applied.  The implementation
+replays the repair sequence the implementation reports as applied (so the mirror needs
+no term costs); a share of the recovery cases sets non-uniform RTParserBuilder::term_costs
+on both the parse_actions and the parse_map builder.  The implementation
 has to match the mirror of today's code or the mirror of the repaired code.
 
 Failing-input search (independent of the mirrors): from the implementation's own log
@@ -81,6 +83,32 @@ CORPUS_FAULTY_REC = [
      [[("(", 0, 1, True), ("x", 2, 3, True)], [("x", 2, 3, True), (")", 5, 6)], [("(", 1, 2), ("o", 3, 4, True), (")", 5, 6, True)],
       [("(", 0, 1), ("x", 1, 2, True), ("o", 2, 3), ("o", 4, 5, True), (")", 7, 8)]]),
 ]
+
+# NON-UNIFORM TERM COSTS (RTParserBuilder::term_costs): (grammar, costs by token index [cycled], inputs).  The same cost function
+# is given to the parse_actions builder and to the parse_map builder; the cheapest repair differs from the unit-cost one.
+CORPUS_COSTS = [
+    # tokens a b c d (indices in order of appearance): inserting/deleting 'c' is expensive -> "a d" is repaired by
+    # [Insert b, Delete d] (cost 2), with unit costs by [Insert c] (cost 1)
+    ("%start S\n%%\nS: 'a' 'b' | 'a' 'c' 'd';\n", [1, 1, 5, 1, 1],
+     [[("a", 0, 1), ("d", 2, 3)], [("a", 0, 1)], [("a", 0, 1), ("c", 2, 3)], [("d", 0, 1)], [("a", 0, 1), ("b", 2, 3)]]),
+    ("%start S\n%%\nS: 'a' 'b' | 'a' 'c' 'd';\n", [1, 255, 1, 3],
+     [[("a", 0, 1), ("d", 2, 3)], [("a", 0, 1)], [("b", 1, 2)], [("d", 0, 1)], [("a", 0, 1), ("d", 2, 3), ("d", 4, 5)]]),
+    ("%start S\n%%\nS: '(' L ')' ;\nL: L I | ;\nI: 'x' O;\nO: 'o' | ;\n", [4, 1, 2, 5],
+     [[("(", 0, 1), ("x", 2, 3)], [("x", 2, 3), (")", 5, 6)], [("(", 1, 2), ("o", 3, 4), (")", 5, 6)],
+      [("(", 0, 1), ("x", 1, 2), ("o", 2, 3), ("o", 4, 5), (")", 7, 8)]]),
+    ("%start E\n%%\nE: E '+' T | T;\nT: 'n' | '(' E ')';\n", [5, 1, 2, 255, 1],
+     [[("n", 0, 1), ("n", 2, 3)], [("(", 0, 1), ("n", 2, 3)], [("n", 0, 1), ("+", 2, 3), ("+", 4, 5), ("n", 6, 7)],
+      [("n", 0, 1), (")", 2, 3)], [("+", 0, 1)]]),
+]
+
+
+def random_costs(rng, ntoks):
+    """a non-uniform cost list (cycled over the token indices by the harness): mostly 1..5, some 255 / larger values"""
+    ln = rng.choice([2, 3, 4, 5, 7, max(2, ntoks + 1)])
+    while True:
+        c = [rng.choice([1, 1, 2, 2, 3, 4, 5, 5, rng.randint(6, 40), 255]) for _ in range(ln)]
+        if len(set(c)) > 1:
+            return c
 
 
 def mark_faulty(rng, inp):
@@ -179,7 +207,13 @@ def usable(g):
 
 def gen_cases(ctx, n_grammars, n_inputs):
     rng = ctx.rng
-    cases = []                                    # (src, rec, [inputs])
+    cases = []                                    # (src, rec, [inputs], term costs or None)
+    for src, costs, inputs in CORPUS_COSTS:
+        cases.append((src, 1, inputs, costs))
+        cases.append((src, 1, inputs))
+    for src, inputs in CORPUS_REC + CORPUS_FAULTY_REC:
+        cases.append((src, 1, inputs, [1, 5, 2, 255, 3]))
+        cases.append((src, 1, inputs, [3, 1]))
     for src, inputs in CORPUS:
         cases.append((src, 0, inputs))
         cases.append((src, 1, inputs))
@@ -236,6 +270,10 @@ def gen_cases(ctx, n_grammars, n_inputs):
         # faulty (first / last / both ends / every k-th / a random subset / all).  The marks come from a generator of their
         # own (seeded from the case) so that the rest of the generated stream does not depend on them.
         frng = random.Random(zlib.crc32(src.encode()) ^ (ng * 2654435761 & 0xffffffff))
+        # non-uniform term costs (the same function for parse_actions and parse_map) for half of the recovery cases, from a
+        # generator of their own as well
+        crng = random.Random(zlib.crc32(src.encode()) ^ (ng * 40503 & 0xffffffff) ^ 0x5bd1e995)
+        costs = random_costs(crng, len(g.tokens)) if crng.random() < 0.5 else None
         for rec, inps in ((0, plain), (1, recov)):
             extra = []
             for k in range(frng.randrange(3), len(inps), 3):
@@ -243,7 +281,11 @@ def gen_cases(ctx, n_grammars, n_inputs):
                 if mode != "none":
                     extra.append(m)
                     ctx.count("inputs_with_faulty_lexemes_" + mode)
-            cases.append((src, rec, inps + extra))
+            if rec and costs:
+                ctx.count("recovery_cases_with_nonuniform_term_costs")
+                cases.append((src, rec, inps + extra, costs))
+            else:
+                cases.append((src, rec, inps + extra))
     return cases
 
 
@@ -251,8 +293,9 @@ def lex_word(l):
     return "%s@%d-%d%s" % (l[0], l[1], l[2], "!" if len(l) > 3 and l[3] else "")
 
 
-def case_line(src, rec, inputs):
-    return "O %s %d ; %s" % (src.encode().hex(), rec, " ; ".join(" ".join(lex_word(l) for l in inp) for inp in inputs))
+def case_line(src, rec, inputs, costs=None):
+    return "O %s %d%s ; %s" % (src.encode().hex(), rec, (" costs=" + ",".join(str(c) for c in costs)) if costs else "",
+                               " ; ".join(" ".join(lex_word(l) for l in inp) for inp in inputs))
 
 
 # ---------------------------------------------------------------- parsing of result lines
@@ -263,6 +306,8 @@ class Parse:
         self.oa = None
         self.log = []            # raw strings of L sections after the tag
         self.ea = []             # raw
+        self.ra = []             # per EA: sorted list of ALL repair sequences of that error | None (none / too many)
+        self.rg = []             # per EG: the same for the generic mode
         self.ta = None
         self.og = None
         self.eg = []
@@ -292,12 +337,18 @@ def split_impl(line):
             cur.log.append(" ".join(s[1:]))
         elif t == "EA":
             cur.ea.append(" ".join(s[1:]))
+            cur.ra.append(None)
+        elif t == "RA" and cur.ra:
+            cur.ra[-1] = None if s[1:2] == ["*"] else sorted(s[1].split("|"))
+        elif t == "RG" and cur.rg:
+            cur.rg[-1] = None if s[1:2] == ["*"] else sorted(s[1].split("|"))
         elif t == "TA":
             cur.ta = " ".join(s[1:])
         elif t == "OG":
             cur.og = " ".join(s[1:])
         elif t == "EG":
             cur.eg.append(" ".join(s[1:]))
+            cur.rg.append(None)
         elif t == "TG":
             cur.tg = " ".join(s[1:])
     return secs, parses
@@ -452,6 +503,31 @@ def oracle(prods, p, rec):
                 probs.append(("generic", "actions-built tree %s differs from generic tree %s" % (p.ta, p.tg)))
             if acc != p.og.startswith("acc"):
                 probs.append(("generic", "actions mode %s, generic mode %s" % (p.oa, p.og)))
+        else:
+            # Different repairs were APPLIED (repairs()[0]: the order of an error's repair sequences is hash order).  Up to the
+            # first error whose applied sequence differs both parsers are in the same configuration (same lexemes, same stack),
+            # and they were given the same recoverer and the same term costs: they must OFFER the same set of sequences there.
+            for i, (a, b) in enumerate(zip(p.ea, p.eg)):
+                wa, wb = a.split(), b.split()
+                if wa[:2] != wb[:2]:
+                    break
+                sa, sb = p.ra[i], p.rg[i]
+                if sa is not None and sb is not None and sa != sb:
+                    facts["repair_sets_differ"] = True
+                    if (p.ta or "-") != (p.tg or "-") or acc != p.og.startswith("acc"):
+                        probs.append(("generic", "actions-built tree %s differs from generic tree %s, and not because of an arbitrary choice "
+                                                 "among equally ranked repairs: at error %d (lexeme %s, state %s; same repairs applied before) "
+                                                 "parse_actions offers the repair sequences {%s}, parse_map {%s} (same builder settings)"
+                                      % (p.ta, p.tg, i, wa[0], wa[1], " | ".join(sa), " | ".join(sb))))
+                    else:
+                        probs.append(("generic-repairs-noinput", "at error %d parse_actions offers {%s}, parse_map {%s}; the trees are equal"
+                                      % (i, " | ".join(sa), " | ".join(sb))))
+                    break
+                if sa is None or sb is None:
+                    facts["repair_sets_not_compared"] = True
+                if wa[3:] != wb[3:]:
+                    facts["different_choice_same_offer"] = sa is not None and sb is not None
+                    break
     if (p.oa or "").startswith("panic") or (p.og or "").startswith("panic"):
         probs.append(("panic", "parse_actions: %s / parse_map: %s" % (p.oa, p.og)))
     return probs, facts
@@ -473,8 +549,9 @@ def run(ctx):
     # a HANG/CRASH loses the whole case: redo it input by input
     for i, out in enumerate(impl):
         if out.startswith("HANG") or out.startswith("CRASH"):
-            src, rec, inputs = cases[i]
-            sub = [case_line(src, rec, [])] + [case_line(src, rec, [inp]) for inp in inputs]
+            src, rec, inputs = cases[i][:3]
+            costs = cases[i][3] if len(cases[i]) > 3 else None
+            sub = [case_line(src, rec, [], costs)] + [case_line(src, rec, [inp], costs) for inp in inputs]
             outs = core.run_lines([exe], sub, env=dict(env, GVH_CASE_TIMEOUT_MS="3000"))
             if not outs[0].startswith("G "):
                 continue
@@ -491,13 +568,18 @@ def run(ctx):
     matched_cur = matched_fix = 0
     only_cur_example = only_fix_example = None
     known_seen = {"empty": 0, "lead": 0}
-    for (src, rec, inputs), il, ml in zip(cases, impl, model):
+    for cs, il, ml in zip(cases, impl, model):
+        src, rec, inputs = cs[:3]
+        costs = cs[3] if len(cs) > 3 else None
         if not il.startswith("G "):
             ctx.count("grammar_rejected_" + il.split()[0])
             if il.startswith("BUILDPANIC"):
                 ctx.violation({"what": "table construction panicked", "grammar": src, "impl": il})
             continue
         secs, parses = split_impl(il)
+        tc = [int(x) for sct in secs if sct and sct[0] == "TC" for x in sct[1:]]
+        if costs and not tc:
+            ctx.violation({"what": "harness did not report the term costs it was given", "grammar": src}, no_input=True)
         prods = [(int(s[1]), [int(x) for x in s[2:]]) for s in secs if s and s[0] == "P"]
         verdict, mparses = split_model(ml)
         ok_case = True
@@ -520,6 +602,26 @@ def run(ctx):
                 ctx.count("parses_with_lexer_supplied_faulty_lexemes")
             replay = {"grammar": src, "recovery": bool(rec), "input_tidx@span": inp, "impl_outcome": p.oa, "impl_log": p.log,
                       "impl_errors": p.ea, "impl_tree": p.ta, "generic_tree": p.tg}
+            if costs:
+                replay["term_costs_by_token_index"] = tc
+                replay["generic_errors"] = p.eg
+                replay["builder"] = ("RTParserBuilder::new(..).recoverer(CPCTPlus).term_costs(f) with f(tidx) = term_costs_by_token_index[tidx], "
+                                     "for parse_actions and for parse_map alike")
+            for cls, detail in [x for x in probs if x[0] == "generic-repairs-noinput"]:
+                ctx.violation(dict(replay, what=detail, broken_correspondence="parse_actions and parse_map run the same recoverer with the "
+                                                                              "same settings"), no_input=True)
+                ok_case = False
+            probs = [x for x in probs if x[0] != "generic-repairs-noinput"]
+            if rec and p.ea and p.eg:
+                tag = "_costs" if costs else "_unit"
+                if p.ea == p.eg:
+                    ctx.count("rec_same_applied_repairs_trees_compared" + tag)
+                elif facts.get("different_choice_same_offer"):
+                    ctx.count("rec_different_choice_among_same_offered_set" + tag)
+                elif facts.get("repair_sets_differ"):
+                    ctx.count("rec_offered_sets_differ" + tag)
+                else:
+                    ctx.count("rec_applied_differ_not_comparable" + tag)
             unknown = [x for x in probs if x[0] not in ("empty", "lead")]
             known = [x for x in probs if x[0] in ("empty", "lead")]
             # ---- correspondence with the mirrors
@@ -564,8 +666,8 @@ def run(ctx):
             if rec and p.ea:
                 ctx.count("parses_with_applied_repairs")
         ctx.oblige(ok_case)
-        ctx.case("%d %s" % (rec, src), nontriv,
-                 {"grammar": src, "recovery": bool(rec), "parses": len(parses), "accepted": n_acc,
+        ctx.case("%d %s%s" % (rec, src, (" costs " + ",".join(map(str, costs))) if costs else ""), nontriv,
+                 {"grammar": src, "recovery": bool(rec), "term_costs": costs, "parses": len(parses), "accepted": n_acc,
                   "first_input": " ".join("%d@%d-%d" % l + ("!" if f else "")
                                           for l, f in zip(parses[0].lexemes, parses[0].faulty)) if parses else "",
                   "first_log": parses[0].log if parses else []})
@@ -589,7 +691,12 @@ def run(ctx):
                             "faulty, for plain and for recovery parses (a faulty input lexeme is a lexeme: expected log unchanged but for "
                             "the flag in the lexeme arguments); the harness lexer is single-shot (a second Lexer::iter call panics); each "
                             "grammar is run with recovery off and with CPCT+ (the mirror replays the repair sequence the implementation "
-                            "reports as applied). case = (grammar, recovery flag); non-trivial = at least one accepted parse in which some "
+                            "reports as applied, hence needs no costs); half of the generated recovery cases (and a fixed corpus) give "
+                            "BOTH builders (parse_actions, parse_map) a NON-UNIFORM term_costs function (a list of 2..ntokens+1 costs cycled "
+                            "over the token indices, values 1..5 mostly, some 6..40 and 255); actions tree = generic tree is demanded when "
+                            "the same repairs were applied, and when they were not (repairs()[0] is an arbitrary member of the offered set) "
+                            "the SETS of repair sequences offered at the first error with a different choice must be equal. "
+                            "case = (grammar, recovery flag, costs); non-trivial = at least one accepted parse in which some "
                             "action call derives no lexeme; distinct by grammar text + flag")
     ctx.assumptions += [
         "actions are modelled freely (call k returns the value k and is logged); any concrete action family is a fold over the log",
@@ -604,5 +711,8 @@ def run(ctx):
         "a lexeme the LEXER hands over as faulty (Lexeme::new_faulty, public API) is an input lexeme like any other: it counts as derived by "
         "its production and bounds the span; generated faulty input lexemes have non-zero length so that the leaves oracle can tell them "
         "from the zero-length lexemes the recoverer inserts",
+        "the set of repair sequences offered for an error is a function of the parser configuration, the recoverer and the term costs (only "
+        "their ORDER is arbitrary: HashSet drain in simplify_repairs); a search cut short by the time budget offers nothing and is not compared; "
+        "sets of more than 64 sequences are not compared",
         "lexemes come from a replaying lexer with explicit byte spans (start <= end, increasing); lrlex is not involved",
     ]
